@@ -415,6 +415,17 @@ class Machine:
             # an iterator (the lines of a file): handed out lazily, so
             # that a second loop continues where the first one stopped
             return v
+        if isinstance(v, Sym):
+            # an object of the program: its `__iter__`
+            meth = self.method_of(v, '__iter__')
+            if meth is not None:
+                return self.iterate(self.apply_callable(meth, [v]))
+            if getattr(v, 'cls', None) is None and \
+                    '__iter__' in self.stubs:
+                self.receiver = v
+                return self.iterate(
+                    self.stubs['__iter__'](self, None, [], {}))
+            raise Unknown('iteration over an object')
         if isinstance(v, (set, frozenset)):
             # the order in which a set hands out its elements is not
             # specified: the model uses one that is not the sorted one,
@@ -1307,6 +1318,17 @@ class ModuleEnv:
                 if sub is None:
                     lib = (a.name if isinstance(s, ast.Import)
                            else (s.module or ''))
+                    if isinstance(s, ast.Import) and lib == 'logging':
+                        # (the levels are numbers; the calls are effects)
+                        v = Sym('module logging', {
+                            'DEBUG': 10, 'INFO': 20, 'WARNING': 30,
+                            'ERROR': 40, 'CRITICAL': 50})
+                        self.cache[name] = v
+                        return v
+                    if isinstance(s, ast.Import) and lib == 'sys':
+                        v = Sym('module sys', {'maxsize': 2 ** 63 - 1})
+                        self.cache[name] = v
+                        return v
                     if isinstance(s, ast.Import) and lib in _STDLIB:
                         v = Sym(f'module {lib}', {
                             k: ('builtin', f'{lib}.{k}')
